@@ -170,6 +170,50 @@ def contains_call(node, callees):
     return any(cal in callees for (_, cal) in calls(node))
 
 
+def _e6_dropout_view(c, fn):
+    """E6 view of a layer forward: for every non-panicking path (training known true?, dropout effects, does the dropout setting occur in
+    the result / the effects?)."""
+    from .. import e6
+    E = e6.Exec(c, fn)
+    SELF = ("p", "self")
+    TR, DR = ("field", SELF, FLAG), ("field", SELF, "dropout")
+    out = []
+    for p in E.run_fn():
+        if p.exit is not None and p.exit[0] == "panic":
+            continue
+        tr = None
+        for (t, pol) in p.pc:
+            if t == TR:
+                tr = pol
+            elif isinstance(t, tuple) and t[0] == "bin" and t[1] == "Eq" and TR in (t[2], t[3]) and ("lit", "true") in (t[2], t[3]):
+                tr = pol
+        drops = [e for e in p.eff if e[0] == "mut" and e[1] == "tensor::Tensor::dropout"]
+        val = p.val if p.exit is None else p.exit[1]
+        others = tuple(e for e in p.eff if e not in drops)
+        rest = tuple(sorted(repr((t, pol)) for (t, pol) in p.pc if not e6.contains(t, DR) and t != TR))
+        out.append(dict(training=tr, drops=drops, mentions=e6.contains((e6.strip_upd(val), others), DR), val=e6.strip_upd(val), others=others, rest=rest,
+                        rate_ok=all(len(e[3]) == 1 and e[3][0] == ("payload", DR, "Option::Some", 0) for e in drops)))
+    return out
+
+
+def _dropout_only_under_training_e6(c, fn):
+    """on the E6 summary: dropout is applied only on paths where self.training holds, with the configured rate, and on the other paths
+    neither the result nor any effect depends on the dropout setting (paths that differ only in it agree)"""
+    view = _e6_dropout_view(c, fn)
+    if not view or not any(v["drops"] for v in view):
+        return False
+    for v in view:
+        if v["drops"] and (v["training"] is not True or not v["rate_ok"]):
+            return False
+        if v["training"] is not True and v["mentions"]:
+            return False
+    groups = {}
+    for v in view:
+        if v["training"] is not True:
+            groups.setdefault(v["rest"], []).append((v["val"], v["others"]))
+    return all(len({repr(x) for x in g}) == 1 for g in groups.values())
+
+
 def r1(ctx):
     c = ctx.crate
     sites = []
@@ -184,14 +228,18 @@ def r1(ctx):
         fn = c.fn(parent)
         where = "%s:%s" % (fn["file"], cl["line"]) if fn else parent
         ctx.analysed_fns.add(parent)
-        if parent not in allowed or mk != parent:
+        inlined_helper = bool(c.mir[mk].get("inlined_from")) and parent in allowed
+        if parent not in allowed or (mk != parent and not inlined_helper):
             ctx.bad("R09.1", inst, "dropout-called-outside-layer-forward", where,
                     "tensor::Tensor::dropout is called from %s; only %s may apply dropout" % (mk, sorted(allowed)))
             continue
         g = [x for x in cl["guards"] if x["src"] == "(*self).training"]
         true_edge = [x for x in g if (x["val"] == "otherwise" and x["not"] == ["0"]) or x["val"] == "1"]
-        if true_edge:
+        if true_edge and not inlined_helper:
             ctx.ok("R09.1", inst, "dropout call dominated by true edge of (*self).training; guards=%s" % [(x["src"], x["val"]) for x in cl["guards"]], where)
+        elif fn is not None and _dropout_only_under_training_e6(c, fn):
+            # the flag reaches the branch through a temporary (a tuple scrutinee, a helper's parameter): decided on the E6 path summary instead
+            ctx.ok("R09.1", inst, "every path of %s that applies dropout has self.training among its path conditions (E6 summary)" % parent, where)
         else:
             ctx.bad("R09.1", inst, "dropout-not-guarded-by-training", where,
                     "call of dropout is not dominated by the true edge of a branch on (*self).training; dominating guards: %s"
@@ -494,6 +542,8 @@ def r7(ctx):
                     under = True
             if not under:
                 under = _only_controls_training_effects(c, fn, x)
+            if not under and path.endswith("::forward"):
+                under = _dropout_only_under_training_e6(c, fn)
             ctx.check("R09.7", "%s:dropout-read" % path, under, "dropout-rate-read-outside-training", c.loc(fn, x),
                       "`%s` is read only under `%s.training`" % (pretty(x), pretty(strip(x["b"]))),
                       "`%s` is read on a path where `%s.training` is not known to be true (conditions on the way: %s): the dropout "
